@@ -203,6 +203,9 @@ theorem C13_reach_above {nlev : Nat} {hist : List Ent} {dm nm : Nat} {s : Lsm} (
   | @flush hist dm nm s r id ih =>
     intro x hx hv
     exact (LL.mem_allEntries_flush s id x).mpr (ih x hx hv)
+  | resort _ hl hp ih =>
+    intro x hx hv
+    exact (LL.mem_allEntries_resort hl hp x).mpr (ih x hx hv)
   | @compact hist dm nm s s' r cd d n now' hi htop hvc hdp hs hcut ih =>
     obtain ⟨⟨h, hv, _, hu, _⟩, _, _⟩ := C01_reach_inv r
     have hc := C12_validChoice_compactOk h hv hi htop hvc
@@ -299,6 +302,9 @@ inductive ReachK (nlev N : Nat) : List Ent → Nat → Nat → Lsm → Prop
       (hfresh : ∀ x ∈ hist, x.key = e.key → x.ver < e.ver) : ReachK nlev N (e :: hist) dm nm (s.putEnt e)
   | flush {hist : List Ent} {dm nm : Nat} {s : Lsm} (r : ReachK nlev N hist dm nm s) (id : Nat) :
       ReachK nlev N hist dm nm (s.flush id)
+  | resort {hist : List Ent} {dm nm : Nat} {s : Lsm} (r : ReachK nlev N hist dm nm s) {l0 l0' : List Tbl}
+      {rest : List (List Tbl)} (hl : s.levels = l0 :: rest) (hp : l0'.Perm l0) :
+      ReachK nlev N hist dm nm { s with levels := l0' :: rest }
   | compact {hist : List Ent} {dm nm : Nat} {s s' : Lsm} (r : ReachK nlev N hist dm nm s) (cd : CompactDef)
       (d n now' : Nat) (hN : N ≤ n) (hi : ChoiceIdxOk s cd) (htop : cd.top ≠ []) (hvc : validChoice s cd = true)
       (hdp : cd.dropPrefixes = []) (hs : s.compact cd d n now' = some s')
@@ -312,6 +318,7 @@ theorem ReachK.toReach {nlev N : Nat} {hist : List Ent} {dm nm : Nat} {s : Lsm}
   | init => exact .init
   | put _ e hpos hmax hfresh ih => exact .put ih e hpos hmax hfresh
   | flush _ id ih => exact .flush ih id
+  | resort _ hl hp ih => exact .resort ih hl hp
   | compact _ cd d n now' _ hi htop hvc hdp hs hcut ih => exact .compact ih cd d n now' hi htop hvc hdp hs hcut
 
 theorem KeptByN.tail {x : Ent} {hist : List Ent} {n : Nat} {e : Ent} (h : KeptByN (x :: hist) n e) :
@@ -343,6 +350,9 @@ theorem C13_reachK_keep_n {nlev N : Nat} {hist : List Ent} {dm nm : Nat} {s : Ls
   | @flush hist dm nm s r id ih =>
     intro x hx hk
     exact (LL.mem_allEntries_flush s id x).mpr (ih x hx hk)
+  | resort _ hl hp ih =>
+    intro x hx hk
+    exact (LL.mem_allEntries_resort hl hp x).mpr (ih x hx hk)
   | @compact hist dm nm s s' r cd d n now' hN hi htop hvc hdp hs hcut ih =>
     intro x hx hk
     refine C13_reach_step_keep_n r.toReach hi htop hvc hdp hs (ih x hx hk) ?_
